@@ -140,20 +140,30 @@ func runC08(c *Ctx) {
 		if fi.Pkg.PkgPath != pMigrate || recvName(fi.Decl) != "Scanner" {
 			return
 		}
-		// sub scanners: idents assigned &Scanner{...}
+		// sub scanners: locals assigned &Scanner{...}, or the result of a Scanner method that constructs one
 		subs := map[types.Object]bool{}
+		fromCtor := map[types.Object]bool{}
 		ast.Inspect(fi.Decl.Body, func(m ast.Node) bool {
 			as, ok := m.(*ast.AssignStmt)
-			if !ok || len(as.Lhs) != 1 || len(as.Rhs) != 1 {
+			if !ok || len(as.Rhs) != 1 || len(as.Lhs) < 1 {
 				return true
 			}
-			un, ok := as.Rhs[0].(*ast.UnaryExpr)
-			if !ok || un.Op != token.AND {
+			id, ok := as.Lhs[0].(*ast.Ident)
+			if !ok {
 				return true
 			}
-			if cl, ok := un.X.(*ast.CompositeLit); ok && typeIs(info.TypeOf(cl), pMigrate, "Scanner") {
-				if id, ok := as.Lhs[0].(*ast.Ident); ok {
+			switch r := ast.Unparen(as.Rhs[0]).(type) {
+			case *ast.UnaryExpr:
+				if cl, ok := r.X.(*ast.CompositeLit); ok && r.Op == token.AND && typeIs(info.TypeOf(cl), pMigrate, "Scanner") {
 					subs[info.ObjectOf(id)] = true
+				}
+			case *ast.CallExpr:
+				if fn := calleeOf(info, r); fn != nil && recvTypeName(fn) == "Scanner" && fn.Pkg() != nil && fn.Pkg().Path() == pMigrate && typeIs(derefType(info.TypeOf(id)), pMigrate, "Scanner") {
+					if cf := c.FuncInfoOf(fn); cf != nil && cf.Decl.Body != nil {
+						// the constructor itself is checked where it is declared (it holds the literal and the init call)
+						subs[info.ObjectOf(id)] = true
+						fromCtor[info.ObjectOf(id)] = true
+					}
 				}
 			}
 			return true
@@ -161,6 +171,18 @@ func runC08(c *Ctx) {
 		if len(subs) == 0 {
 			return
 		}
+		// a constructor helper returns the sub-scanner: only its init argument is checked
+		returnsSub := false
+		ast.Inspect(fi.Decl.Body, func(m ast.Node) bool {
+			if r, ok := m.(*ast.ReturnStmt); ok {
+				for _, res := range r.Results {
+					if id, ok := ast.Unparen(res).(*ast.Ident); ok && subs[info.ObjectOf(id)] {
+						returnsSub = true
+					}
+				}
+			}
+			return true
+		})
 		c.funcs[fi.Name] = true
 		recv := info.ObjectOf(fi.Decl.Recv.List[0].Names[0])
 		f := newFlow(info, fi.Decl.Body)
@@ -181,7 +203,12 @@ func runC08(c *Ctx) {
 					}
 				}
 			}
-			c.Check("R08b", fi.Name+"|sub.init(s.input[s.pos:])", fi.Decl.Pos(), initOK, "the nested scanner must be initialised with s.input[s.pos:]")
+			if !fromCtor[sub] {
+				c.Check("R08b", fi.Name+"|sub.init(s.input[s.pos:])", fi.Decl.Pos(), initOK, "the nested scanner must be initialised with s.input[s.pos:]")
+			}
+			if returnsSub {
+				continue
+			}
 			isAddBack := func(n ast.Node) bool {
 				hit := false
 				walkShallow(n, func(m ast.Node) bool {
